@@ -82,12 +82,45 @@ EXPLANATION = (
 
 # ---------------------------------------------------------------- jobs
 
-def corpus_projects() -> T.List[T.Tuple[str, T.Dict[str, str]]]:
+# projgen's own gen.py writes into *every* path argument, inputs included (it overwrites the executable or library it is
+# given as `input:`); for an execution check the script must consume what exists and write what does not
+SAFE_GEN_PY = '''#!/usr/bin/env python3
+import os, sys, zlib
+acc = 0
+outs = []
+for p in sys.argv[1:]:
+    if p.startswith('-'):
+        continue
+    if os.path.exists(p):
+        with open(p, 'rb') as f:
+            acc = zlib.crc32(f.read(), acc)
+    else:
+        outs.append(p)
+for p in outs:
+    with open(p, 'w') as f:
+        f.write('/* generated %d */\\n' % acc)
+'''
+
+
+# deliberately invalid projects: the executor must flag them, with one of these finding kinds (positive controls, run in
+# every tier; a control that is *not* flagged is a failed obligation of the check itself)
+CONTROLS = {
+    '_control_missing_decl': ('needs-non-ancestor', 'hermetic-fail', 'schedule-fail'),
+    '_control_present_sensitive': ('present-sensitive',),
+}
+
+
+# `cc.preprocess(..., include_directories: '.')` of a generated header cannot work when custom target outputs go to meson-out/
+NO_FLAT = {'override_and_nested'}
+
+
+def corpus_projects(controls: bool = False) -> T.List[T.Tuple[str, T.Dict[str, str]]]:
     out = []
     tool = open(os.path.join(CORPUS_DIR, 'tool.py'), encoding='utf-8').read()
     for name in sorted(os.listdir(CORPUS_DIR)):
         top = os.path.join(CORPUS_DIR, name)
-        if not os.path.isdir(top) or name.startswith(('_', '.')):
+        if not os.path.isdir(top) or name.startswith('.') or (name in CONTROLS) != controls or \
+                (name.startswith('_') and name not in CONTROLS):
             continue
         files: T.Dict[str, str] = {}
         for dp, _dn, fns in os.walk(top):
@@ -140,11 +173,20 @@ def make_jobs(ctx: Ctx) -> T.List[dict]:
     corpus = corpus_projects()
     for name, files in corpus:
         jobs.append({'id': 'corpus/' + name, 'files': files, 'args': [], 'seed': rng.getrandbits(40), 'n_random': n_rand})
+    for name, files in corpus:
+        if name == 'ct_index_arg':
+            # the same project under --layout=flat in every tier (known finding F-GRAPH-FLAT-CTINDEX)
+            jobs.append({'id': 'corpus/ct_index_arg--layout=flat', 'files': files, 'args': ['--layout=flat'],
+                         'seed': rng.getrandbits(40), 'n_random': 1})
+    for name, files in corpus_projects(controls=True):
+        jobs.append({'id': 'control/' + name, 'files': files, 'args': [], 'seed': rng.getrandbits(40), 'n_random': 1})
     variants = [[], [], ['-Dunity=on'], ['--layout=flat'], ['-Ddefault_library=both'], ['-Dunity=on', '-Dunity_size=2'],
-                ['-Ddefault_library=static'], ['-Db_staticpic=false', '-Ddefault_library=static'], ['-Dbuildtype=release']]
+                ['-Ddefault_library=static'], ['-Dbuildtype=release'], ['-Dbuildtype=plain', '-Ddefault_library=both']]
     if ctx.deep:
         for name, files in corpus:
             for v in (['-Dunity=on'], ['--layout=flat'], ['-Ddefault_library=both']):
+                if v == ['--layout=flat'] and (name in NO_FLAT or name == 'ct_index_arg'):
+                    continue
                 jobs.append({'id': f'corpus/{name}{"".join(v)}', 'files': files, 'args': v, 'seed': rng.getrandbits(40),
                              'n_random': n_rand})
     for k in range(ctx.scale(5, 90)):
@@ -159,7 +201,12 @@ def make_jobs(ctx: Ctx) -> T.List[dict]:
             spec = projgen.gen_project(sub, tmp, {'odd_names': 0.2, 'max_targets': 7, 'tests': 0.3, 'aliases': 0.3})
         finally:
             common.rmtree(tmp)
-        jobs.append({'id': f'projgen/{k}', 'files': spec['files'], 'args': rng.choice(variants), 'seed': rng.getrandbits(40),
+        # projgen passes '@OUTPUT@' to generators with two outputs (meson then substitutes the *input* name): name both
+        files = {rel: (SAFE_GEN_PY if os.path.basename(rel) == 'gen.py' else text.replace(
+            "output: ['@BASENAME@.c', '@BASENAME@.h'], arguments: ['@INPUT@', '@OUTPUT@']",
+            "output: ['@BASENAME@.c', '@BASENAME@.h'], arguments: ['@INPUT@', '@OUTPUT0@', '@OUTPUT1@']"))
+            for rel, text in spec['files'].items()}
+        jobs.append({'id': f'projgen/{k}', 'files': files, 'args': rng.choice(variants), 'seed': rng.getrandbits(40),
                      'n_random': 1, 'features': ['projgen']})
     return jobs
 
@@ -233,15 +280,39 @@ def lean_crosscheck(ctx: Ctx, results: T.List[dict]) -> None:
 
 def absorb(ctx: Ctx, job: dict, r: dict) -> None:
     ctx.count()
-    ctx.tag('project:' + r.get('status', '?'))
     ctx.tag('source:' + job['id'].split('/')[0])
     if r.get('status') == 'crash':
         raise common.ToolFailure(f"worker crashed on {job['id']}: {r.get('trace')}")
+    if job['id'].startswith('control/'):
+        want = CONTROLS[job['id'].split('/', 1)[1]]
+        keys = sorted(set(f['key'] for f in r.get('findings', [])))
+        if any(k.startswith(w) for k in keys for w in want):
+            ctx.tag('positive-control-flagged')
+        else:
+            ctx.obligation_failed('positive control ' + job['id'],
+                                  f'the executor did not flag a deliberately incomplete project (status {r.get("status")}, '
+                                  f'findings {keys}, expected one of {want})')
+        return
+    ctx.tag('project:' + r.get('status', '?'))
     if r.get('status') != 'ok':
         ctx.notes.append(f"{job['id']}: {r.get('status')} {str(r.get('broken') or r.get('out') or '')[:300]}")
-        if r.get('status') in ('broken', 'configure-failed') and job['id'].split('/')[0] in ('corpus', 'gen'):
-            # these projects are valid by construction: not being able to build them at all is a harness defect
-            ctx.tag('invalid-by-construction')
+        if r.get('status') == 'configure-failed' and job['id'].split('/')[0] in ('corpus', 'gen'):
+            ctx.tag('valid-by-construction-project-did-not-configure')
+        if r.get('status') == 'broken' and job['id'].split('/')[0] in ('corpus', 'gen'):
+            # these projects are valid by construction (and build under the default options): a step that fails under
+            # *every* schedule violates "any valid schedule succeeds" just as well
+            d = r.get('broken_detail', {})
+            if d.get('misplaced') and '--layout=flat' in job.get('args', []):
+                key = 'never-succeeds:command-path-ignores-flat-layout'
+            elif d.get('misplaced'):
+                key = f"never-succeeds:{d.get('kind')}:misplaced-path"
+            else:
+                key = f"never-succeeds:{d.get('kind')}"
+            ctx.violation(key, f"step {d.get('step')} fails under every schedule (it still fails after everything else was built)"
+                          + (f"; it wants {d['misplaced'][0][0]} while {d['misplaced'][0][2]} writes {d['misplaced'][0][1]}"
+                             if d.get('misplaced') else ''),
+                          {'project': job['id'], 'finding': d,
+                           'job': {k: job[k] for k in ('id', 'files', 'args', 'seed', 'n_random')}})
     for k, n in (r.get('kinds') or {}).items():
         ctx.tag('step:' + k, n)
     ctx.tag('hermetic-replays', r.get('replays', 0))
@@ -314,5 +385,8 @@ def replay(ctx: Ctx, rep: dict) -> None:
         print('FINDING', f['key'], '-', f['what'])
         print(json.dumps(f['detail'], indent=1)[:3000])
         ctx.violation(f['key'], f['what'], {'project': job['id'], 'finding': f['detail'], 'job': job})
-    if not r.get('findings'):
+    if r.get('status') == 'broken':
+        print('BROKEN', json.dumps(r.get('broken_detail'), indent=1)[:3000])
+        absorb(ctx, job, r)
+    elif not r.get('findings'):
         print('no finding reproduced')
